@@ -8,6 +8,7 @@ package c17
 import (
 	"fmt"
 	"math"
+	"strings"
 
 	"github.com/tidwall/tile38/verif/harness/t38"
 )
@@ -59,7 +60,7 @@ func seqPairProbe(id string, cmds [][]string) probeResult {
 			return res
 		}
 		if _, d := agree(cmd, v, rep, &tnt); d != "" {
-			res.reproduces, res.what = true, fmt.Sprintf("%s: %s (RESP %s, JSON %s)", t38.CmdString(cmd), d, clip(v.String(), 200), clip(jv.Str, 200))
+			res.reproduces, res.what = true, fmt.Sprintf("%s: %s (RESP %s, JSON %s)", t38.CmdString(cmd), strings.TrimPrefix(d, "{{"+id+"}}"), clip(v.String(), 200), clip(jv.Str, 200))
 			return res
 		}
 	}
@@ -81,34 +82,13 @@ func polarProbes() []probeResult {
 	return out
 }
 
-// clientListTypedProbe records (as a note, not as a violation) that CLIENT
-// LIST in JSON mode re-parses its text line and types the client name.
+// clientListTypedProbe: names that read like numbers, booleans or null must
+// come back from CLIENT LIST in JSON mode as the strings RESP CLIENT LIST and
+// CLIENT GETNAME show (regression probe of json-client-list-typed-name).
 func clientListTypedProbe() probeResult {
-	res := probeResult{id: "json-client-list-typed-name", observeOnly: true}
-	if err := mainTrio.reset(); err != nil {
-		panic(err)
+	var cmds [][]string
+	for _, name := range []string{"007", "1e3", "0x1p4", "true", "false", "null", "-0", "1.0", "+5", ".5", "1e-2", "123456789012345678901234567890"} {
+		cmds = append(cmds, []string{"CLIENT", "SETNAME", name}, []string{"CLIENT", "GETNAME"}, []string{"CLIENT", "LIST"})
 	}
-	for _, name := range []string{"007", "1e3", "true"} {
-		cmd := []string{"CLIENT", "SETNAME", name}
-		res.cmds = append(res.cmds, cmd, []string{"CLIENT", "GETNAME"}, []string{"CLIENT", "LIST"})
-		mainTrio.a.Do(cmd...)
-		mainTrio.b.Do(cmd...)
-		lr, _ := mainTrio.a.Do("CLIENT", "LIST")
-		lj, _ := mainTrio.b.Do("CLIENT", "LIST")
-		gj, _ := mainTrio.b.Do("CLIENT", "GETNAME")
-		rep, err := t38.DecodeJSONReply(lj.Str)
-		if err != nil {
-			continue
-		}
-		top, _ := members(rep)
-		list, _ := top["list"].([]any)
-		for _, e := range list {
-			m, _ := e.(map[string]any)
-			if _, isStr := m["name"].(string); !isStr && m["name"] != nil {
-				res.reproduces = true
-				res.what += fmt.Sprintf("CLIENT SETNAME %s: JSON CLIENT LIST shows name %v (%T), RESP CLIENT LIST %q, JSON GETNAME %s; ", name, m["name"], m["name"], clip(lr.Str, 80), clip(gj.Str, 60))
-			}
-		}
-	}
-	return res
+	return seqPairProbe(idClientListTyped, cmds)
 }
